@@ -1,7 +1,7 @@
 use crate::transport::types::{EntityId, SequenceNumber};
 
 use super::super::{
-    error::RtpsMessageResult,
+    error::{RtpsMessageError, RtpsMessageResult},
     overall_structure::{
         Submessage, SubmessageHeaderRead, SubmessageHeaderWrite, TryReadFromBytes, Write,
         WriteIntoBytes,
@@ -26,14 +26,23 @@ impl HeartbeatSubmessage {
         mut data: &[u8],
     ) -> RtpsMessageResult<Self> {
         let endianness = submessage_header.endianness();
+        let reader_id = EntityId::try_read_from_bytes(&mut data, endianness)?;
+        let writer_id = EntityId::try_read_from_bytes(&mut data, endianness)?;
+        let first_sn = SequenceNumber::try_read_from_bytes(&mut data, endianness)?;
+        let last_sn = SequenceNumber::try_read_from_bytes(&mut data, endianness)?;
+        let count = Count::try_read_from_bytes(&mut data, endianness)?;
+        // RTPS 8.3.7.5.3 Validity
+        if first_sn <= 0 || last_sn < first_sn - 1 {
+            return Err(RtpsMessageError::InvalidData);
+        }
         Ok(Self {
             final_flag: submessage_header.flags()[1],
             liveliness_flag: submessage_header.flags()[2],
-            reader_id: EntityId::try_read_from_bytes(&mut data, endianness)?,
-            writer_id: EntityId::try_read_from_bytes(&mut data, endianness)?,
-            first_sn: SequenceNumber::try_read_from_bytes(&mut data, endianness)?,
-            last_sn: SequenceNumber::try_read_from_bytes(&mut data, endianness)?,
-            count: Count::try_read_from_bytes(&mut data, endianness)?,
+            reader_id,
+            writer_id,
+            first_sn,
+            last_sn,
+            count,
         })
     }
 
